@@ -55,3 +55,22 @@ H("C17", "matrix", "VxH_C17_group", mode="real", reach=["done"], bounds="three f
 H("C17", "matrix", "VxH_C17_invert", mode="real", reach=["singular", "regular"], bounds="one fully symbolic matrix")
 H("C17", "matrix", "VxH_C17_inplace", mode="real", reach=["done"], bounds="fully symbolic matrix and arguments")
 H("C17", "matrix", "VxH_C17_ctor", mode="real", reach=["done"], bounds="fully symbolic arguments")
+
+# ---- C05 selectors ----
+ASSUMPTIONS["C05"] = [
+    "selectors are built from the package's own selector node types (in-package harness); documents are hand-built x/net/html node trees with symbolic node types, tags and attribute bytes",
+    "attribute and text bytes are assumed ASCII (< 0x80); non-ASCII case folding (strings.EqualFold vs ASCII case-insensitivity) is outside the claim",
+    "an+b: integers in int mode (mathematical integers with a no-overflow obligation) within the stated coefficient ranges",
+]
+CLAIMS["C05"] = {
+    "text": "For symbolic sibling lists (<=4 nodes of symbolic kind/tag), symbolic an+b coefficients, symbolic ASCII attribute/selector values (<=3/<=2 bytes; thorough 4/2) and every operator, the solver shows that Match equals the Selectors definition written as an independent oracle, that specificity composes as specified and that no path panics.",
+    "design_ref": "DESIGN.md section 4 C05",
+    "note": "Trusted: symgo, z3, native models of strings.* leaf functions. Bounds as stated; :lang/:contains/regex selectors, non-ASCII bytes and the selector text parser beyond the round-trip harness are outside the claim.",
+}
+H("C05", "css/selector", "VxH_C05_nth", reach=["element", "not-an-element"], bounds="1..3 (thorough 4) siblings of symbolic kind (element/text/comment) and tag (a/b); a enumerated in [-5,5], b symbolic in [-5,5]; last, ofType symbolic")
+H("C05", "css/selector", "VxH_C05_nth_wide", reach=["match", "no-match"], bounds="3 siblings; a enumerated in [-8,8], |b| <= 2^10 (thorough 2^20) symbolic, witness n arbitrary in [0, 2^11+8] (thorough 2^21+8)")
+H("C05", "css/selector", "VxH_C05_only", reach=["element"], bounds="1..3 siblings")
+H("C05", "css/selector", "VxH_C05_attr", reach=["op:=", "op:~=", "op:|=", "op:^=", "op:$=", "op:*=", "op:!="], bounds="attribute value 0..3 ASCII bytes (thorough 4), selector value 0..2 ASCII bytes, i flag symbolic, 7 operators")
+H("C05", "css/selector", "VxH_C05_empty", reach=["done"], bounds="0..2 children, text of 0..2 ASCII bytes")
+H("C05", "css/selector", "VxH_C05_spec", reach=["done"], bounds="three leaf selectors with symbolic specificity components in [0,9]")
+H("C05", "css/selector", "VxH_C05_comb", reach=["done"], bounds="tree root>c0,c1,c2; c1>g with symbolic node kinds/tags; 8 selector shapes over leaf tag selectors")
